@@ -311,9 +311,15 @@ def getKeyByIndex (qmap : List (Text × Nat)) (i : Nat) : Option Text :=
 
 def natText (n : Nat) : Text := Nat.toDigits 10 n
 
-/-- name of qubit `i` in the repaired exporter: its last name, or `q<i>` when it has none -/
+/-- `while name in qubit_map: name = "_" + name` (at most `len(qubit_map) + 1` rounds) -/
+def freshName (names : List Text) : Nat → Text → Text
+  | 0, n => n
+  | fuel+1, n => if names.contains n then freshName names fuel ('_' :: n) else n
+
+/-- name of qubit `i` in the repaired exporter: its last name, or `q<i>` (prefixed with `_`
+until it is no other qubit's name) when it has none -/
 def nameOfIndex (qmap : List (Text × Nat)) (i : Nat) : Text :=
-  (getKeyByIndex qmap i).getD ('q' :: natText i)
+  (getKeyByIndex qmap i).getD (freshName (qmap.map (·.1)) (qmap.length + 1) ('q' :: natText i))
 
 /-- formal parameters of the gate declaration.
 Code as it is (`qasmFormalsFromKeys`): `qubit_map.keys()` – one per *name*, insertion order.
